@@ -143,12 +143,46 @@ def travel_events(ops, t0, reading_times, n_prev, out_time, max_dt):
             exc = max(Fraction(0), abs(f) - Fraction(max_dt))
             steps.append({"sgn": (f > 0) - (f < 0), "excess_ps": _cap(math.ceil(exc * 10 ** 12))})
         tiny = abs(delta) < Fraction(1, 10 ** 9)
-        events.append({"dir": 0 if (dirn == 0) else dirn, "steps": steps, "resid_ps": _cap(math.ceil(abs(tot - delta) * 10 ** 12)),
+        events.append({"dir": 0 if (dirn == 0) else dirn, "nsteps": len(steps), "nwrong": sum(1 for st_ in steps if st_["sgn"] != dirn),
+                       "max_excess_ps": max([st_["excess_ps"] for st_ in steps] or [0]),
+                       "resid_ps": _cap(math.ceil(abs(tot - delta) * 10 ** 12)),
                        "tiny": bool(tiny), "start": starts[j], "target": targets[j], "dts": segs[j]})
         # a travel shorter than the slack may legitimately be skipped or taken; direction is only meaningful beyond the slack
         if tiny and not steps:
             events[-1]["dir"] = 0 if dirn == 0 else dirn
     return events
+
+
+TRACE_KEYS = ("dir", "nsteps", "nwrong", "max_excess_ps", "resid_ps")
+BAD_EVENT = {"dir": 9, "nsteps": 0, "nwrong": 1, "max_excess_ps": 10 ** 9, "resid_ps": 10 ** 9}
+
+
+class LongRec:
+    """recording filter for very long moves: appends step lengths to one list (no per-step copies)"""
+
+    def __init__(self, control_size, max_dt_sec):
+        from types import SimpleNamespace
+        self.control_size = control_size
+        self.config = SimpleNamespace(max_dt_sec=max_dt_sec, innovation_filtering=None)
+        self.dts = []
+
+    def process_model(self, dt, state, covariance, control=None):
+        self.dts.append(dt)
+        return (state, covariance)
+
+
+def long_moves_python(mods, moves, unit):
+    runtime = mods["runtime"]
+    out = []
+    for maxn, t0, target, ctl in moves:
+        ekf = LongRec(1 if ctl else 0, maxn * unit)
+        mf = runtime.ManagedFilter(ekf, start_time=t0 * unit, state=None, covariance=None)
+        mf.tick(target * unit, control=(1 if ctl else None))
+        ev = travel_events([("P", d, 0) for d in ekf.dts], t0 * unit, [], 0, target * unit, maxn * unit)
+        for e in ev:
+            e["dts"] = e["dts"][:5] + ["..."] + e["dts"][-3:] if len(e["dts"]) > 10 else e["dts"]
+        out.append(ev)
+    return out
 
 
 def decimal_python(mods, scns, unit):
